@@ -178,7 +178,8 @@ ReqMany   == Room /\ \E op \in ManyOps, S \in SUBSET Snaps, m \in SUBSET Snaps :
 ReqPair   == Room /\ \E op \in PairOps, S \in SUBSET Snaps : Cardinality(S) \in {1, 2} /\ Request(op, S, NoFrom, {})
 ReqAll    == Room /\ \E m \in SUBSET Snaps : Cardinality(m) <= 1
                  /\ LET S == {s \in Snaps : status[s] = "active"} IN S # {} /\ m \subseteq S /\ Request("refresh-all", S, NoFrom, m)
-ReqFrom   == \E c \in Live(changes), s \in Snaps : Request("refresh-from", {s}, c, {})
+ReqFrom   == \E c \in Live(changes) : \E s \in Snaps \ changes[c].done : Request("refresh-from", {s}, c, {})
+             \* (model bound: not onto a finished lane, which would un-finish it and make `done` non-monotone)
 ReqSnapd  == Room /\ \E op \in SnapdOps : Request(op, {Snapd}, NoFrom, {})
 ReqExcl   == Room /\ \E op \in Excl3, T \in SUBSET Snaps : Cardinality(T) <= 1 /\ Request(op, T, NoFrom, {})
 ReqTrans  == Room /\ \E op \in Transitions : Request(op, {}, NoFrom, {})
@@ -198,6 +199,9 @@ Progress == \E c \in Live(changes) :
 \* partial progress: every task of change c that names snap s becomes ready (its lane is done, or failed and
 \* undone) while the change itself stays in progress (other lanes, or trailing tasks naming no snap)
 PartialProgress == \E c \in Live(changes) : \E s \in changes[c].snaps \ changes[c].done :
+              \* (model bound: only where the real change would stay unready -- several snaps, or a refresh
+              \*  with its trailing check-rerefresh task; the trace spec accepts it for any change)
+              /\ (Cardinality(changes[c].snaps) >= 2 \/ changes[c].kind = "refresh-snap")
               /\ changes' = [changes EXCEPT ![c].done = @ \cup {s}]
               /\ UNCHANGED status
               /\ mon' = [NoMon EXCEPT !.kind = "partial"]
